@@ -131,6 +131,10 @@ Stub.__int__ = lambda self: (self._rec("int"), 2)[1]
 Stub.__float__ = lambda self: (self._rec("float"), 2.0)[1]
 
 
+SAFE_MODULES = {"itertools", "collections", "heapq", "functools", "math", "operator", "string", "re", "json", "copy", "bisect", "statistics", "dataclasses", "enum",
+                "typing", "abc", "contextlib", "numbers", "fractions", "decimal", "textwrap", "datetime"}
+
+
 class Env(dict):
     def __init__(self, w):
         super().__init__()
@@ -139,6 +143,10 @@ class Env(dict):
     def __missing__(self, k):
         if hasattr(builtins, k):
             return getattr(builtins, k)
+        if k in SAFE_MODULES:  # snippets use these without importing them (and add_missing_imports supplies them)
+            import importlib
+
+            return importlib.import_module(k)
         return Stub(self.w, k)
 
 
@@ -164,7 +172,7 @@ def observe(src, stub_world=False, seconds=3):
         res = "exc:" + type(e).__name__
     finally:
         signal.setitimer(signal.ITIMER_REAL, 0)
-    return res, out.getvalue(), list(w.log)
+    return res, _ADDR.sub(" at 0x", out.getvalue()), list(w.log)
 
 
 # ------------------------------------------------------------------------------------------------ workers
@@ -211,8 +219,11 @@ def task_format(args):
     import inspect
 
     try:
-        if "root_is_static" in inspect.signature(rule).parameters:
+        params = inspect.signature(rule).parameters
+        if "root_is_static" in params:
             kw["root_is_static"] = True
+        if "preserve" in params and "preserve" not in kw and params["preserve"].default is inspect.Parameter.empty:
+            kw["preserve"] = frozenset()  # rules that take the preserve set without a default
     except (TypeError, ValueError):
         pass
     return _guarded(lambda: rule(src, **kw), 30)
